@@ -46,7 +46,7 @@ def regressor(pb, variant="auto", order=None, xint=False, units=0, xshift=0.0):
     if xint:
         X = X.astype(int)            # whole-number coordinates given as an integer array
     kw = {}
-    diagonal = np.allclose(sig, np.diag(np.diag(sig)))
+    diagonal = not np.any(sig - np.diag(np.diag(sig)))         # exact: the errors may have been scaled to tiny units
     if variant == "auto":
         variant = "none" if not sig.any() else ("err" if diagonal else "cov")
     if variant == "err":
